@@ -591,4 +591,6 @@ def mixture_stream(w, cfg):
     w.ensure('mixing-term => mixing streams at equal T and P never lowers entropy', w.ge(S_out, w.total(S_in)),
              S_out=str(S_out)[:300])
     w.ensure('frame: inlets unchanged', w.And(*[W.same_snapshot(w, p0, W.snapshot(s)) for p0, s in zip(pre, inlets)]))
-    w.canary('canary: pure inlet 0: S = n s + 1', w.eq(S_in[0], amounts[0] * w.fn(f'S.{IDs[0]}.{phase}')(T, P) + 1.))
+    # (cheap canary on purpose: the path condition of this group is non-linear, a model search with more
+    #  non-linear terms in the canary itself made z3 answer `unknown` now and then on a loaded machine)
+    w.canary('canary: mixing changes the temperature', w.eq(mixed.T, T + 1.))
